@@ -234,3 +234,8 @@ Theorem C04_prism_fanconvex : forall (pts : list (pt2 R)) (h : R) ph, linear_ext
   (forall u v, (mcnt u v (snd ph) <= 1)%nat /\ mcnt u v (snd ph) = mcnt v u (snd ph)) /\
   ((0 < h)%R -> (Poly.area2 pts < 0)%R -> (vol6 (fst ph) (snd ph) < 0)%R).
 Proof. exact prism_fanconvex. Qed.
+(* lofts between fan-convex profiles (e.g. a circle below a rounded rectangle of the same point count) *)
+Theorem C04_loft_fanconvex : forall (lower upper : list (pt2 R)) (h : R) ph, loft lower upper h = Some ph ->
+  fanconv true (rev (enumerate lower)) -> fanconv false (enumerate upper) ->
+  forall u v, (mcnt u v (snd ph) <= 1)%nat /\ mcnt u v (snd ph) = mcnt v u (snd ph).
+Proof. exact loft_fanconvex. Qed.
